@@ -40,7 +40,7 @@
                                 (finding FL1); [fsd_schema_okb] decides that condition.
      fast_slow_decode_equal_step  one step on an unknown field, for all schemas
    Required-field accounting (mask vs tree walk) is C10's subject (W2-A); the harness found the
-   two paths to DISAGREE there: finding FWC1 (findings/C08.txt). *)
+   two paths to DISAGREE there: finding FWC1 (KNOWN_FINDINGS.txt). *)
 From Coq Require Import List NArith ZArith Bool Permutation.
 From PB Require Import Base.PBytes Wire.WireModel Wire.WireGrammar.
 From PB Require Import Msg.MsgSchema Msg.MsgValue Msg.MsgDec Msg.MsgExample.
